@@ -1,10 +1,66 @@
 import CueVerif.Driver.Proto
+import CueVerif.Model.Intern
 namespace CueVerif.Driver.C19
-open CueVerif CueVerif.Driver
+open CueVerif CueVerif.Driver CueVerif.Lockset
 
-/-- protocol handler for C19: words of one op line (after the property id) → answer -/
+/-- comma separated hex keys -/
+def parseKeys (s : String) : Option (List Intern.Key) :=
+  if s == "." then some [] else (s.splitOn ",").mapM unhex
+
+/-- `hexkey:idx,…` -/
+def parseObs (s : String) : Option (List (Intern.Key × Nat)) :=
+  if s == "." then some [] else
+  (s.splitOn ",").mapM fun e =>
+    match e.splitOn ":" with
+    | [k, i] => do let k ← unhex k; let i ← i.toNat?; pure (k, i)
+    | _ => none
+
+def natsStr (xs : List Nat) : String := if xs.isEmpty then "." else ",".intercalate (xs.map toString)
+
+/-- run the MODEL machine: one `getKey` call after the other (each spawned when the
+previous one has finished), from a table of `base` placeholder entries; results in call
+order -/
+def seqRun (base : Nat) (keys : List Intern.Key) : List Nat :=
+  let rec go (s : Intern.State) (ks : List Intern.Key) (acc : List Nat) : List Nat :=
+    match ks with
+    | [] => acc.reverse
+    | k :: r =>
+      let s1 : Intern.State := { s with ths := s.ths ++ [Th.new Intern.getKeyProg (Intern.mkLoc k 0)] }
+      let s2 := drain Intern.sem 24 s1
+      match s2.ths.getLast? with
+      | some t => go s2 r ((if t.st == .done then t.loc.p else 999999999) :: acc)
+      | none => acc.reverse
+  go { data := Intern.baseTab base, ths := [] } keys []
+
+/-- run the MODEL machine concurrently: all calls spawned up front, then the given
+schedule (thread indices; disabled entries are skipped), then drained -/
+def concRun (base : Nat) (keys : List Intern.Key) (sched : List Nat) : List (Intern.Key × Nat) :=
+  let s0 : Intern.State :=
+    { data := Intern.baseTab base, ths := keys.map fun k => Th.new Intern.getKeyProg (Intern.mkLoc k 0) }
+  let s1 := replay Intern.sem s0 sched
+  let s2 := drain Intern.sem (24 * (keys.length + 1)) s1
+  s2.ths.map fun t => (t.loc.s, if t.st == .done then t.loc.p else 999999999)
+
 def handle (ws : List String) : String :=
   match ws with
+  | ["seq", base, keys] =>
+    -- sequential answers of the model for a series of getKey calls (indices as handed out)
+    match base.toNat?, parseKeys keys with
+    | some b, some ks => natsStr (seqRun b ks)
+    | _, _ => "bad-op"
+  | ["hist", base, obs] =>
+    -- is this set of (key, index) results of concurrent getKey calls explainable by a
+    -- sequential order of atomic insert-once operations (the spec)?
+    match base.toNat?, parseObs obs with
+    | some b, some o => if InternSpec.explainable b o then "ok" else "bad"
+    | _, _ => "bad-op"
+  | ["sched", base, keys, sched] =>
+    -- model self-consistency under an arbitrary schedule: the model's own concurrent
+    -- results judged by the spec (always "ok" by C19_intern_linearizable)
+    match base.toNat?, parseKeys keys, natList? sched with
+    | some b, some ks, some sc =>
+      if InternSpec.explainable b (concRun b ks sc) then "ok" else "bad"
+    | _, _, _ => "bad-op"
   | _ => "bad-op"
 
 end CueVerif.Driver.C19
